@@ -54,7 +54,7 @@ def run_pdf(shard, ctx):
             tag = ("c13", kind, D, R)
             Sp = objs.spd_batch(D, R, vi, seed, tag + ("p",), diag=diag)
             mp_ = objs.vec_batch(D, R, vi, seed, tag + ("p",))
-            for prep, mkp, mu_e, Sig_e in objs.pdf_variants(kind, Sp, mp_, which=("fresh", "sliced_neg", "updated", "Sigma+Lambda+lndet", "replaced_mu", "prod_conjugate", "conditioned", "prod_linear", "prod_constant", "hadamard_onerank", "multiply_onerank", "joint_of_cond", "hadamard_linear_bcast", "hadamard_linear_bcast>marginal", "hadamard_linear_bcast>slice") if vi == 0 else ("fresh",)):
+            for prep, mkp, mu_e, Sig_e in objs.pdf_variants(kind, Sp, mp_, which=("fresh", "sliced_neg", "updated", "Sigma+Lambda+lndet", "replaced_mu", "prod_conjugate", "conditioned", "prod_linear", "prod_constant", "hadamard_onerank", "multiply_onerank", "joint_of_cond", "hadamard_linear_bcast", "hadamard_linear_bcast>marginal", "hadamard_linear_bcast>slice", "posterior_identity") if vi == 0 else ("fresh",)):
               if ctx.case(dict(what="entropy", R=R, vi=vi, prep=prep)):
                 with ctx.guard("entropy.call", dict(prep=prep)):
                     p = mkp()
